@@ -1,0 +1,8 @@
+//go:build verif
+
+package dkv
+
+// VerifRotate seals the active memtable and schedules its flush, exactly as a write that
+// fills the memtable does (build tag verif only). It lets a harness place flushes at chosen
+// points of a write history without depending on byte accounting.
+func (db *DB) VerifRotate() { db.rotateMemtable() }
